@@ -62,9 +62,9 @@ def run(ctx):
         elif f.kind in ("child_delete", "index"):
             n["inv"] += 1
             ctx.ob("R10.inv", f.construct, f.ok, f.site, f.detail, pth)
-    ctx.require("R10.fk", n["fk"], 8, "FK obligations")
-    ctx.require("R10.dup", n["dup"], 4, "uniqueness guards")
-    ctx.require("R10.inv", n["inv"], 8, "invariant obligations")
+    ctx.require("R10.fk", n["fk"], 4, "FK obligations")
+    ctx.require("R10.dup", n["dup"], 3, "uniqueness guards")
+    ctx.require("R10.inv", n["inv"], 4, "invariant obligations")
     ns = 0
     for f in e3.may_raise():
         if f.path is not None and f.path.entry.endswith("expire") or \
